@@ -154,7 +154,7 @@ def _rand_variant(rng, seq, lo, hi, kind):
 
 
 def random_spec(rng, want_cn=None, pseudogene=None, kinds=None, hostile=0.3, max_len=None,
-                gaps=None, strands=None, n_majors=None):
+                gaps=None, strands=None, n_majors=None, silent_kinds=None):
     """Random consistent database.  Returns dict with keys: yml (the YAML dict), truth (dict)."""
     name = "GENX"
     pname = "GENXP"
@@ -247,7 +247,7 @@ def random_spec(rng, want_cn=None, pseudogene=None, kinds=None, hostile=0.3, max
     silent_pool = []
     nonex = [r for r in order if r[0] != "e"]
     for i in range(rng.randint(2, 7)):
-        v = place(rng.choice([k for k in kinds if k != "delins"]), rng.choice(nonex))
+        v = place(rng.choice(silent_kinds or [k for k in kinds if k != "delins"]), rng.choice(nonex))
         if v:
             silent_pool.append(v + ([f"rs{2000 + i}"] if rng.random() < 0.6 else []))
     # hostile: second alternative at an existing SNP site; insertion right next to a SNP
@@ -262,6 +262,20 @@ def random_spec(rng, want_cn=None, pseudogene=None, kinds=None, hostile=0.3, max
             if ">" in v[1] and len(v[1]) == 3 and v[0] + 2 < L:
                 func_pool.append([v[0], f"ins{rand_seq(rng, 2)}", "-", "frameshift"])
                 break
+
+    # hostile: a substitution 2-6 bases after an insertion / deletion, both core variants of one allele
+    close_pair = None
+    if rng.random() < hostile + 0.25:
+        cands = [m for m in func_pool if m[1][:3] in ("ins", "del") and "ins" not in m[1][3:]]
+        if cands:
+            v = rng.choice(cands)
+            sp = variant_span(v[0], v[1])
+            i = sp[1] + rng.randint(2, 6)
+            reg = [r for r in order if rs[r][0] <= sp[0] < rs[r][1]]
+            if reg and i + 4 < rs[reg[0]][1] and all(b + 3 <= i or i + 3 <= a for a, b in used if (a, b) != sp):
+                w = [i + 1, f"{seq[i]}>{rng.choice([b for b in BASES if b != seq[i]])}", "-", "P34S"]
+                used.append((i, i + 1))
+                close_pair = (v, w)
 
     alleles = {}
     alleles[f"{name}*1.001"] = {"label": f"{name}*1", "activity": "normal function", "mutations": []}
@@ -290,6 +304,8 @@ def random_spec(rng, want_cn=None, pseudogene=None, kinds=None, hostile=0.3, max
             if core and compatible(core) and key not in [sorted((m[0], m[1]) for m in c) for _, c in majors]:
                 majors.append((k + 2, core))
                 break
+    if close_pair:
+        majors.append((n_major + 2, [list(close_pair[0]), list(close_pair[1])]))
     for num, core in majors:
         n_minor = rng.choice([1, 1, 2, 3])
         seen_sets = []
